@@ -6,7 +6,7 @@ Definition binv (s : bst) : Prop :=
   b_start s <= b_clock s /\
   (forall t, b_done s = Some t -> t <= b_clock s) /\
   match b_pc s with
-  | BPolling | BStuck => True
+  | BPolling => True
   | BChecking => b_done s <> None -> b_tok s = true
   | BWaiting lim => lim = b_start s + b_dur s /\ (b_done s <> None -> b_tok s = true)
   | BDone BTimeout unseen at_ =>
@@ -39,26 +39,24 @@ Proof.
   intros s o I. pose proof I as (Hs & Hd & Hp). destruct o; cbn [bstep].
   - (* tick *) unfold binv. cbn [b_start b_clock b_done b_pc b_tok b_dur b_val].
     split; [lia|]. split; [intros t Ht; specialize (Hd t Ht); lia|].
-    destruct (b_pc s) as [| |lim| |[v|] u a]; auto.
+    destruct (b_pc s) as [| |lim|[v|] u a]; auto.
     destruct Hp as [A B]. split; [lia|exact B].
   - (* complete *) destruct (b_done s) as [t0|] eqn:D.
     + exact I.
-    + unfold bwake. cbn [b_tok]. unfold binv.
-      destruct (b_tok s) eqn:T; cbn [b_start b_clock b_done b_pc b_tok b_dur b_val];
+    + unfold bwake, binv.
+      cbn [b_start b_clock b_done b_pc b_tok b_dur b_val];
         (split; [lia|]); (split; [intros t Ht; inversion Ht; lia|]);
-        (destruct (b_pc s) as [| |lim| |[v|] u a]; auto;
+        (destruct (b_pc s) as [| |lim|[v|] u a]; auto;
          [ destruct Hp as [A B]; split; auto
          | destruct Hp as [A [t [B C]]]; discriminate
          | destruct Hp as [A B]; split; [lia|]; intros U t Ht; inversion Ht; lia ]).
   - (* spurious *) unfold bwake, binv.
-    destruct (b_tok s) eqn:T; cbn [b_start b_clock b_done b_pc b_tok b_dur b_val];
+    cbn [b_start b_clock b_done b_pc b_tok b_dur b_val];
       (split; [lia|]); (split; [exact Hd|]);
-      (destruct (b_pc s) as [| |lim| |[v|] u a]; auto; destruct Hp as [A B]; split; auto).
+      (destruct (b_pc s) as [| |lim|[v|] u a]; auto; destruct Hp as [A B]; split; auto).
   - (* self wake *) destruct (b_pc s) eqn:P; try exact I.
-    destruct (b_tok s) eqn:T.
-    + unfold set_bpc, binv. cbn [b_start b_clock b_done b_pc b_tok b_dur b_val]. repeat split; auto.
-    + unfold bwake. rewrite T. unfold binv. cbn [b_start b_clock b_done b_pc b_tok b_dur b_val].
-      rewrite P. repeat split; auto.
+    unfold bwake, binv. cbn [b_start b_clock b_done b_pc b_tok b_dur b_val].
+    rewrite P. repeat split; auto.
   - (* poll *) destruct (b_pc s) eqn:P; try exact I.
     destruct (b_done s) as [t0|] eqn:D; unfold set_bpc, binv;
       cbn [b_start b_clock b_done b_pc b_tok b_dur b_val]; try rewrite D;
@@ -73,7 +71,7 @@ Proof.
       assert (b_done s <> None) by congruence. rewrite (Hp H) in U. discriminate.
   - (* recv ok *) destruct (b_pc s) eqn:P; try exact I.
     destruct (b_tok s) eqn:T; [|exact I].
-    destruct (0 <? b_blocked s); unfold binv; cbn [b_start b_clock b_done b_pc b_tok b_dur b_val]; auto.
+    unfold binv; cbn [b_start b_clock b_done b_pc b_tok b_dur b_val]; auto.
   - (* recv timeout *) destruct (b_pc s) eqn:P; try exact I.
     destruct (negb (b_tok s) && (lim <=? b_clock s)) eqn:G; [|exact I].
     apply andb_true_iff in G. destruct G as [G1 G2]. apply negb_true_iff in G1. apply Z.leb_le in G2.
@@ -113,22 +111,32 @@ Theorem late_check_window_exists :
     b_pc s = BDone BTimeout true at_ /\ b_done s = Some t /\ t < 0 + 10.
 Proof. exists [BPoll; BComplete; BTick 11; BCheck], 0, 11. vm_compute. auto. Qed.
 
-(* A liveness defect the model exhibits (not part of the C42 statement, which is about
-   what is returned): a wake from inside poll while a token is buffered blocks the
-   polling thread in the waker's send; from then on no step changes anything - the
-   duration is not honoured, block_timeout never returns. *)
-Theorem block_timeout_can_deadlock :
-  exists ops, b_pc (brun ops (binit 0 10 7)) = BStuck /\
-    forall more, b_pc (brun more (brun ops (binit 0 10 7))) = BStuck.
+(* After fix 7de0553 (try_send): a wake issued from inside poll - also with a token
+   already buffered - never blocks the polling thread: its place in the loop is
+   unchanged, a token is buffered afterwards, nothing else changes; and every wake,
+   from whichever thread, leaves the place of the blocked thread unchanged. *)
+Theorem self_wake_never_blocks : forall s,
+  b_pc (bstep s BSelfWake) = b_pc s /\
+  (b_pc s = BPolling -> b_tok (bstep s BSelfWake) = true) /\
+  b_clock (bstep s BSelfWake) = b_clock s /\ b_done (bstep s BSelfWake) = b_done s /\
+  b_pc (bstep s BSpurious) = b_pc s.
 Proof.
-  exists [BSpurious; BSelfWake]. split; [reflexivity|].
-  set (s0 := brun [BSpurious; BSelfWake] (binit 0 10 7)).
-  assert (P0 : b_pc s0 = BStuck) by reflexivity. clearbody s0.
-  intros more. revert s0 P0. induction more as [|o more IH]; intros s0 P0; [exact P0|].
-  change (brun (o :: more) s0) with (brun more (bstep s0 o)). apply IH.
-  destruct o; cbn [bstep]; unfold bwake, set_bpc; rewrite ?P0; cbn; auto.
-  - destruct (b_done s0); cbn; auto. destruct (b_tok s0); cbn; auto.
-  - destruct (b_tok s0); cbn; auto.
+  intros s. cbn [bstep]. unfold bwake. destruct (b_pc s) eqn:P; cbn; rewrite ?P; repeat split; auto;
+    try discriminate.
+Qed.
+
+(* ... and the poll that follows proceeds as usual: Pending -> the clock check, or
+   Ready -> Ok(output) (the old hanging input: wake twice inside one poll) *)
+Theorem self_wake_then_poll_proceeds : forall s,
+  b_pc s = BPolling ->
+  let s' := brun [BSelfWake; BSelfWake; BPoll] s in
+  match b_done s with
+  | None => b_pc s' = BChecking /\ b_tok s' = true
+  | Some _ => exists at_, b_pc s' = BDone (BOk (b_val s)) false at_
+  end.
+Proof.
+  intros s P. destruct s as [c st d v tk p dn n]. cbn in P. subst p.
+  cbn. destruct dn; cbn; eauto.
 Qed.
 
 (* Ok(v) is only ever the future's own output, returned after its completion *)
@@ -150,7 +158,7 @@ Theorem block_timeout_completes : forall s lim,
 Proof.
   intros s lim P D T. unfold brun. cbn [fold_left bstep]. rewrite P, T.
   destruct (b_done s) eqn:E; [|congruence].
-  destruct (0 <? b_blocked s); cbn; eauto.
+  cbn; eauto.
 Qed.
 
 (* ---------------------------------------------------------------- block_on *)
